@@ -63,6 +63,8 @@ HIST_GAMMAS = ["default", "default", "half_default", "inv_k", "one", "zero", "in
 class League:
     def __init__(self, first, ctx):
         self.cfg = first["cfg"]
+        self.first = first
+        self.reseated = 0
         self.ctx = ctx
         self.model = mk_model(self.cfg)
         self.players = [self.model.rating(p[0], p[1]) for p in first["players"]]
@@ -118,7 +120,11 @@ class League:
                     raise Violation("history:sigma-step-above-tau", f"{self.cfg['kind']} game {self.n_games} player {i}: {prior[i]!r} -> {s!r} with tau {tau!r}")
                 # leave the valid input domain -> the player is not fed back any more (soundness of later inputs)
                 if s < 1e-4 * beta or s > 10 * beta or abs(r.mu) > 20 * beta:
-                    self.retired.add(i)
+                    # the seat is taken by a new account with the seat's initial values (the old object is never passed again)
+                    mu0, sg0 = self.first["players"][i]
+                    self.players[i] = self.model.rating(mu0, sg0)
+                    self.bound_sq[i] = sg0 * sg0
+                    self.reseated += 1
         if self.n_games >= 10 and max(self.games) >= 5:
             self.nontrivial = True
 
@@ -128,10 +134,7 @@ class League:
 def _match(h, min_teams, max_teams, lim=None, tau0=False):
     @st.composite
     def match(draw):
-        act = h.active()
-        if len(act) < 2:
-            act = list(range(len(h.players)))
-            h.retired.clear()
+        act = h.active()  # all seats: a player leaving the domain is replaced at once
         order = draw(st.permutations(act))
         n = draw(st.integers(min(min_teams, len(order)), min(max_teams, len(order))))  # retirements may leave fewer active players than the rule prefers
         # cut `order` into n non-empty teams (sizes 1..3)
@@ -213,7 +216,7 @@ def long_history_custom(ctx, seed, tier, shard, nshards, n):
             except Violation as v:
                 v.case = hist
                 raise
-        ctx.label(f"games:{h.n_games // 500 * 500}+", "retired:%d" % len(h.retired))
+        ctx.label(f"games:{h.n_games // 500 * 500}+", "reseated:%d+" % (min(h.reseated, 50) // 10 * 10))
         ctx.nontrivial_if(h.n_games >= 1000)
         ctx.end()
 
@@ -245,7 +248,7 @@ PROPERTY = Property(
          "with ratings fed back; oracle: sigma finite, > 0, <= sqrt(prior^2 + tau^2) (same float expression, 4 ulp), <= prior under limit_sigma, and "
          "<= sqrt(sigma0^2 + sum tau^2) along a history; non-trivial per clause; distinct by SHA-1",
     assumptions=[
-        "players whose rating leaves the valid input domain (sigma < 1e-4 beta, sigma > 10 beta, |mu| > 20 beta) are not fed back any more",
+        "a player whose rating leaves the valid input domain (sigma < 1e-4 beta, sigma > 10 beta, |mu| > 20 beta) is replaced by a new account with the seat's initial values",
         "history gammas restricted to callbacks bounded by 1 (a constant gamma of 50 collapses sigma below the domain within a few games)",
     ],
 )
